@@ -1,7 +1,7 @@
 """C15 - graph decomposition primitives are exact; edit histories keep the store consistent."""
 import random
 
-from engine import gen_states, pool_map
+from engine import REPO, gen_states, pool_map
 from tlaval import parse_action_label
 import tours
 
@@ -182,9 +182,9 @@ def run(ctx):
         return ops
 
     for fx in ("smallgraph.gfa", "test_GFA_class.gfa", "test_GFA_class_wrong_graph.gfa", "smallgraph_withN.gfa"):
-        ops = ops_from_lines(open("/repo/tests/data/" + fx).read().splitlines())
+        ops = ops_from_lines(open(REPO + "/tests/data/" + fx).read().splitlines())
         gjobs.append((f"fx_{fx}", ops, [False] * (len(ops) - 1) + [True]))
-    big = gzip.open("/repo/tests/data/large-graph-chr1.gfa.gz", "rt").read().splitlines()
+    big = gzip.open(REPO + "/tests/data/large-graph-chr1.gfa.gz", "rt").read().splitlines()
     adj = {}
     for l in big:
         if l.startswith("L"):
